@@ -85,7 +85,7 @@ macro_rules! avl_runner {
                 let name = op[0].as_str();
                 let a1 = op.get(1).map(|s| int(s)).unwrap_or(0);
                 let a2 = op.get(2).map(|s| int(s)).unwrap_or(0);
-                let is_mut = matches!(name, "ins" | "rem" | "gmut" | "gmut0" | "openmut");
+                let is_mut = matches!(name, "ins" | "rem" | "gmut" | "gmut0" | "openmut" | "init");
                 if name == "ext" {
                     h = None;
                     phase ^= 1;
@@ -97,7 +97,7 @@ macro_rules! avl_runner {
                     out.push('\n');
                     continue;
                 }
-                if name == "openmut" || name == "openro" {
+                if name == "openmut" || name == "openro" || name == "init" {
                     h = None;
                 }
                 let r: Option<(String, Vec<i128>)> = guarded(|| {
@@ -144,6 +144,12 @@ macro_rules! avl_runner {
                             },
                             "gmut0" => fmt_opt('V', t.get_mut(&K::from_i(a1)).map(|v| v.to_i())),
                             "openmut" => "U".to_string(),
+                            "init" => {
+                                // initialise again in place, over whatever the buffer holds (only in
+                                // implementation-only batches: the model starts from zero-filled buffers)
+                                t.initialize(a1 as $idx);
+                                "U".to_string()
+                            }
                             _ => unreachable!(),
                         };
                         log = take_log();
